@@ -10,6 +10,7 @@ from rope.base import (
     exceptions,
     fscommands,
     nameanalyze,
+    pynames,
     pynamesdef,
     pyobjects,
     utils,
@@ -275,14 +276,43 @@ class PyPackage(pyobjects.PyPackage):
         # name (``from .render import render`` rebinds ``pkg.render``).
         if self.attributes.get() is None:
             result = dict(self._get_structural_attributes())
-            result.update(self._get_concluded_attributes())
+            result.update(self._get_init_names())
             self.attributes.set(result)
         return self.attributes.get()
 
     def get_attribute(self, name):
-        if name in self._get_concluded_attributes():
-            return self._get_concluded_attributes()[name]
+        init_names = self._get_init_names()
+        if name in init_names:
+            return init_names[name]
         return super().get_attribute(name)
+
+    def _get_init_names(self):
+        """The names of ``__init__.py`` that are not its own submodules
+
+        ``from . import sub`` or ``from pkg import sub`` inside
+        ``__init__.py`` names the submodule itself; resolving it through
+        the package again would never end.
+        """
+        submodules = self._get_structural_attributes()
+        result = {}
+        for name, pyname in self._get_concluded_attributes().items():
+            if name in submodules and self._imports_from_this_package(pyname, name):
+                continue
+            result[name] = pyname
+        return result
+
+    def _imports_from_this_package(self, pyname, name):
+        if not isinstance(pyname, pynames.ImportedName):
+            return False
+        if pyname.imported_name != name:
+            return False
+        try:
+            imported = pyname.imported_module.get_object()
+        except exceptions.RopeError:
+            return False
+        return isinstance(imported, pyobjects.PyPackage) and (
+            imported.get_resource() == self.resource
+        )
 
     def _get_child_resources(self):
         result = {}
